@@ -233,7 +233,7 @@ package linux
 // names become numbers, ports / state / mark / log level have their own
 // rewritings (not specified here), every other option is left alone.
 //vc:spec func normProto(x string) string = ite(x == "vrrp", "112", ite(x == "ipv6-icmp", "58", x))
-//vc:spec func normRel(k string, v string, w string) bool = ite(k == "-s" || k == "-d", w == v || v == w + "/32", ite(k == "-p", w == normProto(strings.ToLower(v)), ite(k == "--sport" || k == "--dport" || k == "--state" || k == "--set-mark" || k == "--log-level", true, w == v)))
+//vc:spec func normRel(k string, v string, w string) bool = ite(k == "-s" || k == "-d", w == v || v == w + "/32", ite(k == "-p", w == normProto(strings.ToLower(v)), ite(k == "--sport" || k == "--dport", w == strings.TrimLeft(v, "0") || (strings.CutSuffix$1(strings.TrimLeft(v, "0"), ":65535") && w == strings.CutSuffix(strings.TrimLeft(v, "0"), ":65535") + ":"), ite(k == "--state" || k == "--set-mark" || k == "--log-level", true, w == v))))
 //vc:spec func specialKey(k string) bool = k == "-m" || k == "--set-xmark" || k == "--set-mark"
 //vc:ghost var markLowered string
 //vc:func normalizeIPTables
